@@ -33,6 +33,7 @@ CONSTANTS
   WithHandle = %(handle)s
   WithFlushOne = %(flushone)s
   WithDrop = %(drop)s
+  WithRepair = %(repair)s
   Dev = {%(dev)s}
   OutFile = "%(out)s"
   BatchFilter <- %(bfilter)s
@@ -46,11 +47,11 @@ IMPL_INVS = "INVARIANTS TypeOK RefOK IndexAgree ExistOK UniqueOK ValidOK SyncDur
 
 
 def impl_cfg(slots=2, kvals=2, avals=2, maxbatch=2, maxops=3, cfgs="AllCfgs", thr=2, tmo=1, flusher=False,
-             switch=False, get=True, handle=False, dev=(), out="", bfilter="AnyBatch", check=True, flushone=False, drop=False):
+             switch=False, get=True, handle=False, dev=(), out="", bfilter="AnyBatch", check=True, flushone=False, drop=False, repair=False):
     return GEN_CFG % dict(
         slots=", ".join(str(i) for i in range(1, slots + 1)), kvals=", ".join(str(i) for i in range(kvals)),
         avals=", ".join(str(i) for i in range(avals)), maxbatch=maxbatch, maxops=maxops, cfgs=cfgs, thr=thr, tmo=tmo,
-        flusher="TRUE" if flusher else "FALSE", switch="TRUE" if switch else "FALSE", get="TRUE" if get else "FALSE", handle="TRUE" if handle else "FALSE", flushone="TRUE" if flushone else "FALSE", drop="TRUE" if drop else "FALSE",
+        flusher="TRUE" if flusher else "FALSE", switch="TRUE" if switch else "FALSE", get="TRUE" if get else "FALSE", handle="TRUE" if handle else "FALSE", flushone="TRUE" if flushone else "FALSE", drop="TRUE" if drop else "FALSE", repair="TRUE" if repair else "FALSE",
         dev=", ".join('"%s"' % d for d in dev), out=out, bfilter=bfilter,
         emit="ACTION_CONSTRAINT Emit" if out else "", invs=IMPL_INVS if check else "")
 
@@ -230,6 +231,8 @@ def convert(uni, hist, idx, obs_around_reopen=True, pal=None, storage=None, extr
             vclock = True
         elif k == "drop":
             out.append({"op": "drop", "cfg": {"cache": op["cache"], "async": op["async"]}})
+        elif k == "repair":
+            out.append({"op": "repair"})
         else:
             raise ValueError("unknown model op " + k)
     t = {"id": "mc%d" % idx, "cfg": make_cfg(head["cache"], head["async"], storage, thr=thr, tmo_ms=tmo_ms), "ops": out}
@@ -377,6 +380,8 @@ def random_test(uni, rng, idx, nops=40, nslots=8, p_reopen=0.06, p_batch=0.12, p
                 ops.append({"op": "delall"})
             else:
                 ops.append({"op": "delsearch", "q": g.chain(depth=rng.choice([1, 1, max_chain]))})
+        elif x < p_reopen + p_batch + p_del + 0.01:
+            ops.append({"op": "repair"})          # Repair on the live, healthy handle: nothing changes
         elif x < p_reopen + p_batch + p_del + 0.08:
             ops.append({"op": "obs", "light": rng.random() < 0.5})
         elif x < p_reopen + p_batch + p_del + 0.08 + p_query:
@@ -834,6 +839,26 @@ def reentry_tests(uni, rng, reps=150):
             w2 = [{"op": "put", "slot": 3, "o": obj(3, 8)} for i in range(reps)]
             out.append({"id": "re-%s-%d" % (name, ci), "cfg": make_cfg(c[0], c[1], (ci * 5) % len(STORAGE), thr=1, tmo_ms=100), "ops": setup,
                         "threads": [ops * reps, w1, w2], "perturb": False, "yield": True, "reopen": ci % 2 == 1, "fields": ["K"], "norecord": True})
+    return out
+
+
+def drop_conc_tests(uni, rng, n=40, reps=12):
+    """C08 for Drop: one goroutine drops and re-creates the collection while others write and read it; schedule perturbation at
+    the file-system call sites; synchronous settings.  Only the final state is judged (spec/SodFinal.tla)."""
+    cm = uni["casemul"]
+    out = []
+    for i in range(n):
+        def obj(slot):
+            k = 5 + slot
+            return {"K": k, "S": (1 + (k - 5)) * cm, "A": 4 + slot % 2, "V": 2, "pl": 0}
+        setup = [{"op": "put", "slot": s, "o": obj(s)} for s in range(1, 1 + rng.randrange(2, 6))]
+        t1 = []
+        for _ in range(reps // 3):
+            t1 += [{"op": "drop"}, {"op": "put", "slot": 1 + rng.randrange(6), "o": obj(1 + rng.randrange(6))}]
+        t2 = [{"op": "put", "slot": 1 + (j % 6), "o": obj(1 + (j % 6))} for j in range(reps)]
+        t3 = [rng.choice([{"op": "count"}, {"op": "all"}, {"op": "get", "slot": 1 + rng.randrange(6)}, {"op": "del", "slot": 1 + rng.randrange(6)}]) for _ in range(reps)]
+        out.append({"id": "dc%d" % i, "cfg": make_cfg(i % 2 == 1, False, i % len(STORAGE)), "ops": setup, "threads": [t1, t2, t3], "perturb": True, "yield": i % 3 == 0,
+                    "reopen": False, "fields": ["K"], "norecord": True, "finalcheck": True})
     return out
 
 
